@@ -58,6 +58,8 @@ impl<'a, 'b: 'a> Decoder<'a, 'b> {
         if self.offset <= bytes_len {
             let start = self.offset;
             self.offset = bytes_len;
+            #[cfg(feature = "verif")]
+            crate::verif::count_octets(bytes_len - start);
             let bytes = self.bytes.slice(start..self.offset);
             Ok(bytes)
         } else {
